@@ -27,7 +27,7 @@ SPEC = {
         "the tree is started as SpanningTree::Leaf(first range), as the wallet does",
     ],
     "tiers": {
-        "quick": {"shards": 16, "budget_s": 40},
+        "quick": {"shards": 16, "budget_s": 80},
         "thorough": {"shards": 16, "budget_s": 1500},
     },
     "floors": {
